@@ -737,9 +737,9 @@ pub fn run(ctx: &Ctx) -> ! {
     );
     rep.explore(
         "single_head_long",
-        "same policy, one client, 6-14 actions in a row on a single-head graph (longer fact histories, many segments)",
+        "same policy, one client, 6-26 actions in a row on a single-head graph (long fact histories, fact-index compaction)",
         || {
-            prop::collection::vec(act(false), 6..15).prop_map(|tests| Case {
+            prop::collection::vec(act(false), 6..27).prop_map(|tests| Case {
                 prefix: vec![],
                 branches: vec![],
                 own: vec![],
